@@ -9,7 +9,7 @@ from typing import List
 from vfw import corpus, hs
 from vfw.harness.planutil import tok_slices
 from vfw.refsem import cfg, shape
-from vfw.refsem.gdsl import Grammar, Rule, Alt, T, N, L, Opt, Maybe, Star
+from vfw.refsem.gdsl import Grammar, Rule, Alt, T, N, L, Opt, Maybe, Star, Plus, Rep, Tpl, Term
 
 PROPERTY = 'C03'
 P = hs.params()
@@ -92,6 +92,77 @@ def tpl(ix: List[int]) -> bool:
     return hs.run_path(_tpl_body, (ix,), corner=lambda ix: hs.sel(ix[NITEMS - 1], NI) == NI - 1 and hs.sel(ix[0], NI) == NI - 1)
 
 
+# ---------------------------------------------------------------------------------------------------------------------
+# two rules side by side: the same operator applied to an anonymous literal (filtered) in one and to the named terminal with the same
+# pattern (kept) in the other - generated helper rules and template instances must not be shared between the two
+PAIR_ITEMS = {
+    'x+': lambda: Plus(L('x')), 'X+': lambda: Plus(T('X')), 'x*': lambda: Star(L('x')), 'X*': lambda: Star(T('X')),
+    'x~2': lambda: Rep(L('x'), 2, 2), 'X~2': lambda: Rep(T('X'), 2, 2), 'x~1..2': lambda: Rep(L('x'), 1, 2), 'X~1..2': lambda: Rep(T('X'), 1, 2),
+    't{x}': lambda: Tpl('t', L('x')), 't{X}': lambda: Tpl('t', T('X')), '[x]': lambda: Maybe(L('x')), '[X]': lambda: Maybe(T('X')),
+}
+PAIR_NAMES = list(PAIR_ITEMS)
+PAIR_MODS = ['', '!']
+
+if P and P.get('kind') == 'pair':
+    from lark import Lark
+    from lark.exceptions import UnexpectedInput, GrammarError
+    NPI = len(PAIR_NAMES)
+    PMODS = P['mods']
+    PAIR_TEXTS = [''.join(w) for n in range(P['L'] + 1) for w in itertools.product('xy', repeat=n)]
+
+
+def _pair_grammar(ia, ib, ma, mb):
+    return Grammar([Rule('start', [[N('a'), N('b')]]), Rule(ma + 'a', [[PAIR_ITEMS[ia](), T('Y')]]), Rule(mb + 'b', [[PAIR_ITEMS[ib](), Opt(T('Y'))]]),
+                    Rule('t', [[N('p'), N('p')]], params=['p'])], terms=[Term('X', 'x'), Term('Y', 'y')])
+
+
+def _pair_body(rec, ia, ib):
+    ia = PAIR_NAMES[hs.sel(ia, NPI)]
+    ib = PAIR_NAMES[hs.sel(ib, NPI)]
+    with hs.untraced():
+        g = _pair_grammar(ia, ib, PAIR_MODS[PMODS[0]], PAIR_MODS[PMODS[1]])
+        rec['key'] = [ia, ib, PMODS]
+        rec['nontrivial'] = True
+        if (PMODS[0] == 1 and ia == 't{x}') or (PMODS[1] == 1 and ib == 't{x}'):
+            # a literal written in a ! rule and handed to a template: lark keeps it in the instance (kept where written); the shaping
+            # rules as documented do not say which rule decides - not asserted either way
+            rec['count'] = {'skipped_literal_argument_from_keep_all_rule': 1}
+            return True
+        bnf = cfg.BNF(g)
+        rx = cfg.text_regexps(g, bnf)
+        parsers = [(name, Lark(g.render(), parser=pr, lexer=lx)) for name, pr, lx in (('lalr', 'lalr', 'contextual'), ('earley', 'earley', 'dynamic'))]
+        checked = 0
+        for text in PAIR_TEXTS:
+            inp = cfg.TextInput(text, rx, ignore=[], mode='longest')
+            recog = cfg.Recognizer(bnf, inp)
+            member = recog.member()
+            shaped = None
+            for name, lk in parsers:
+                try:
+                    tree = lk.parse(text)
+                except UnexpectedInput:
+                    if member:
+                        return hs.fail(rec, '%s rejects a sentence' % name, grammar=g.render(), text=text)
+                    continue
+                if not member:
+                    return hs.fail(rec, '%s accepts a non-sentence' % name, grammar=g.render(), text=text)
+                if shaped is None:
+                    shaped = [shape.shape_root(d, inp) for d in recog.derivations(limit=2000)]
+                got = shape.of_lark(tree)
+                checked += 1
+                if not any(shape.same(s_, got) for s_ in shaped):
+                    return hs.fail(rec, 'tree is not the documented shaping of any derivation', grammar=g.render(), parser=name, text=text, got=got, expected_one_of=shaped[:3])
+        rec['count'] = {'grammars': 1, 'trees_checked': checked}
+    return True
+
+
+def pair(ia: int, ib: int) -> bool:
+    """
+    post: _
+    """
+    return hs.run_path(_pair_body, (ia, ib), corner=lambda ia, ib: hs.sel(ia, NPI) == NPI - 1 and hs.sel(ib, NPI) == NPI - 1)
+
+
 SHAPING = ['shape1', 'shape2', 'shape3', 'shape4', 'shape5', 'shape6', 'ebnf', 'list_sep', 'nullchain']
 LALR_SR = {'shape3', 'shape4', 'shape5', 'shape6'}      # LALR handles them with shift preference: completeness not asserted there
 
@@ -115,6 +186,11 @@ def plan(tier, seed):
                                'params': {'kind': 'tpl', 'nitems': ni, 'mod': mod, 'mp': mp, 'kat': kat, 'L': 4 if quick else 4},
                                'timeout': 400 if quick else 3000, 'twin': mod == '' and mp and not kat,
                                'bound': {'grammars': len(ITEM_NAMES) ** ni, 'input_tokens': 4}})
+    for ma in range(2):
+        for mb in range(2):
+            slices.append({'id': 'pair:mods=%s,%s' % (PAIR_MODS[ma] or '-', PAIR_MODS[mb] or '-'), 'func': 'pair', 'mode': 'realised', 'module': 'vfw.harness.c03',
+                           'params': {'kind': 'pair', 'mods': [ma, mb], 'L': 6 if quick else 8}, 'timeout': 600 if quick else 3000, 'twin': ma == 0 and mb == 0,
+                           'bound': {'grammars': len(PAIR_NAMES) ** 2, 'chars': 6 if quick else 8, 'parsers': ['lalr/contextual', 'earley/dynamic']}})
     meta = {
         'rule': 'tpl: one path per template grammar (rule of 2-3 items x modifier x options), each checked on every sentence up to 4 tokens; e2e: one path per viable token prefix plus one rejecting extension; non-trivial = non-empty input; accepted inputs are compared with the shaped derivation(s)',
         'technique': 'CrossHair symbolic execution of the real parsers and ParseTreeBuilder callbacks vs. an independent shaping oracle',
